@@ -72,8 +72,18 @@ inline exprgen::Env EnvOf(const DocT& f) {
 }
 
 // "a schema freshly built from the same content": same uids, aliases, texts, manual forms, in list order
+// the content of a constituent as a user would type it in: raw texts and manual word forms only — no resolved text, no memoised
+// word forms (a record copied with AsRecord would carry the caches of the very object under test into the "fresh" schema)
+inline semantic::ConceptRecord RawRecord(const semantic::RSCore& core, EntityUID uid) {
+  const auto full = core.AsRecord(uid);
+  semantic::ConceptRecord rec; rec.uid = full.uid; rec.alias = full.alias; rec.type = full.type; rec.rs = full.rs; rec.convention = full.convention;
+  rec.term = lang::LexicalTerm{ full.term.Text().Raw() };
+  for (const auto& [form, text] : full.term.GetAllManual()) rec.term.SetForm(form, text);
+  rec.definition = lang::ManagedText{ full.definition.Raw() };
+  return rec;
+}
 inline void Rebuild(const RSForm& doc, RSForm& fresh) {
-  for (const auto uid : doc.List()) fresh.Load(doc.Core().AsRecord(uid));
+  for (const auto uid : doc.List()) fresh.Load(RawRecord(doc.Core(), uid));
   fresh.UpdateState();
   for (const auto uid : doc.List()) if (const auto* t = doc.Mods()(uid)) fresh.Mods().Track(uid, *t);
 }
